@@ -119,6 +119,8 @@ fn verif_enum_shwap_types() {
         if want("namespace") {
             let mut namespaces: Vec<Namespace> = Vec::new();
             for r in 0..w / 2 { for c in 0..w / 2 { let n = eds.share(r, c).unwrap().namespace(); if !namespaces.contains(&n) { namespaces.push(n); } } }
+            // the parity namespace: covered by the row roots of the lower half (and by the upper ones through their parity half)
+            namespaces.push(Namespace::PARITY_SHARE);
             // a namespace that is absent but inside some row's range, if there is one
             for ns in namespaces.clone() {
                 cases += 1;
@@ -126,6 +128,9 @@ fn verif_enum_shwap_types() {
                 // brute-force scan of the square
                 let mut scan: Vec<Vec<crate::Share>> = Vec::new();
                 for r in 0..w {
+                    // (the roots of the upper rows ignore the parity namespace - NMT "ignore max namespace" -, so the parity
+                    // shares in their right halves are not namespace data of those rows; the lower rows are parity only)
+                    if ns == Namespace::PARITY_SHARE && r < w / 2 { continue; }
                     let mut row_shares = Vec::new();
                     for c in 0..w { let s = eds.share(r, c).unwrap(); if s.namespace() == ns { row_shares.push(s.clone()); } }
                     if !row_shares.is_empty() { scan.push(row_shares); }
@@ -143,6 +148,11 @@ fn verif_enum_shwap_types() {
                     let (d1, d2) = (d.clone(), dah.clone());
                     if accepts(move || d1.verify(id_out, &d2).is_ok()) { println!("WITNESS C06: row namespace data verifies for row {rr} of a square of width {w}"); panic!("witness"); }
                 }}
+                if !rows.is_empty() {
+                    cases += 1;
+                    let (nd, d2) = (NamespaceData::new(vec![]), dah.clone());
+                    if accepts(move || nd.verify(id, &d2).is_ok()) { println!("WITNESS C06: EMPTY namespace data for {ns:?} verifies although {} rows cover the namespace (width {width})", rows.len()); panic!("witness"); }
+                }
                 // tampering: drop the last row, duplicate the last row, reverse the rows (when that changes anything)
                 let all: Vec<_> = rows.iter().map(|(_, d)| d.clone()).collect();
                 let mut variants: Vec<(&str, Vec<_>)> = Vec::new();
